@@ -39,6 +39,7 @@ type C02Case struct {
 	Steps []C02Step `json:"steps"`
 	Plan  ReadPlan  `json:"plan"`
 	Ext   string    `json:"ext,omitempty"` // file mode: "", ".gz", ".xz"
+	Stale int       `json:"stale,omitempty"` // file modes: the output path already holds this many bytes left by an earlier run
 	// multi mode: the schedule
 	Seed    uint64 `json:"seed"`
 	Policy  int    `json:"policy"`
@@ -52,7 +53,20 @@ func init() { Register(c02{}) }
 func (c02) ID() string       { return "C02" }
 func (c02) New() interface{} { return &C02Case{} }
 func (c02) Rule() string {
-	return "each run: an alignment of 1-10 rows whose length is drawn from the widths that straddle every writer line and block (10, 50, 60, 80, their neighbours and multiples) or at random, nucleotide or protein IUPAC residues in both cases with '-', '*', '?', names of 1-14 printable non-blank characters that the formats of the run can represent (<= 10 for strict Phylip; all-digit names included), and one of seven modes: single (writer -> simulated stream -> parser), chain (2-4 formats in a row), file (utils.OpenWriteFile -> real temp file, plain/.gz/.xz -> utils.ReadAlign / GetReader), gzstream (gzip bytes through the simulated stream and GetReaderFromReader), auto (format detection), multifile (2-5 Phylip alignments of sizes on both sides of 4096 bytes written one after the other to one plain/.gz/.xz file and read back with ParseMultiAlignmentsAuto), multi (1-25 Phylip alignments in one stream through ParseMultiAlignmentsAuto with the parser goroutine, every read of the simulated file, the consumer and the close under the seeded scheduler). Distinct = distinct (mode, formats and options, alignment shape, fragment plan or schedule hash); non-trivial = the alignment has at least 2 rows and 2 columns, or the stream holds at least 2 alignments."
+	return "each run: an alignment of 1-10 rows whose length is drawn from the widths that straddle every writer line and block (10, 50, 60, 80, their neighbours and multiples) or at random, nucleotide or protein IUPAC residues in both cases with '-', '*', '?', names of 1-14 printable non-blank characters that the formats of the run can represent (<= 10 for strict Phylip; all-digit names included), and one of seven modes: single (writer -> simulated stream -> parser), chain (2-4 formats in a row), file (utils.OpenWriteFile -> real temp file, plain/.gz/.xz, fresh or already holding 1-120000 bytes of an earlier output -> utils.ReadAlign / GetReader), gzstream (gzip bytes through the simulated stream and GetReaderFromReader), auto (format detection), multifile (2-5 Phylip alignments of sizes on both sides of 4096 bytes written one after the other to one plain/.gz/.xz file and read back with ParseMultiAlignmentsAuto), multi (1-25 Phylip alignments in one stream through ParseMultiAlignmentsAuto with the parser goroutine, every read of the simulated file, the consumer and the close under the seeded scheduler). Distinct = distinct (mode, formats and options, alignment shape, fragment plan or schedule hash); non-trivial = the alignment has at least 2 rows and 2 columns, or the stream holds at least 2 alignments."
+}
+
+// leaveStale puts the disk in the state an earlier run left it in: the output path exists and holds Stale bytes
+// of an older, longer or shorter, output.
+func (c *C02Case) leaveStale(name string, o *Outcome) {
+	if c.Stale <= 0 {
+		return
+	}
+	old := strings.Repeat(">left_by_an_earlier_run\nACGTACGTAC\n", c.Stale/35+1)[:c.Stale]
+	if err := os.WriteFile(name, []byte(old), 0644); err != nil {
+		panic("harness: " + err.Error())
+	}
+	o.Add("fault_output_path_exists_with_older_content", 1)
 }
 
 var c02Formats = []string{"fasta", "phylip", "phylip-strict", "nexus", "clustal", "stockholm"}
@@ -183,6 +197,7 @@ func (c02) Gen(rs uint64, tier string, race bool) interface{} {
 	}
 	if c.Mode == "file" || c.Mode == "multifile" {
 		c.Ext = r.PickS("", "", ".gz", ".gz", ".gz", ".gz", ".gz", ".xz")
+		c.Stale = r.Pick(0, 0, 0, 1, 300, 6000, 120000)
 	}
 	if c.Mode == "multifile" {
 		// several alignments written one after the other to one file, of sizes on both sides of the
@@ -443,6 +458,7 @@ func (c02) Run(ctx *Ctx, ci interface{}) (o Outcome) {
 		text := c02Write(orig, s)
 		name := fmt.Sprintf("c02-%d%s", os.Getpid(), c.Ext)
 		defer os.Remove(name)
+		c.leaveStale(name, &o)
 		w, err := utils.OpenWriteFile(name)
 		if err != nil {
 			panic("harness: " + err.Error())
@@ -478,6 +494,7 @@ func (c02) Run(ctx *Ctx, ci interface{}) (o Outcome) {
 	case "multifile":
 		name := fmt.Sprintf("c02m-%d%s", os.Getpid(), c.Ext)
 		defer os.Remove(name)
+		c.leaveStale(name, &o)
 		w, err := utils.OpenWriteFile(name)
 		if err != nil {
 			panic("harness: " + err.Error())
